@@ -28,7 +28,7 @@ PSS_DEPENDENT = ('hodge', 'unhodge', 'polarity', 'unpolarity', 'rp')
 def floors(tier):
     f = {'distinct_nontrivial': 3000 if tier == 'quick' else 40000, 'relabel_cases': 1500, 'accessor_reads': 1500,
          'matrix_blade_pairs': 1500, 'rejection_pairs_metric_differs': 300, 'rejection_same_pqr_different_order': 60,
-         'rejection_basis_differs': 100, 'rejection_registered_function': 100, 'custom_basis_algebras': 40, 'named_algebras': 3,
+         'rejection_basis_differs': 30, 'rejection_registered_function': 100, 'custom_basis_algebras': 40, 'named_algebras': 3,
          'respelled_blades_in_bases': 40}
     for o in ALLOPS:
         f['op_' + o] = 25 if tier == 'quick' else 300
@@ -66,7 +66,7 @@ def plan(tier, seed):
     pairs = [(i, j) for i in range(len(R)) for j in range(len(R)) if i != j]
     rng.shuffle(pairs)
     if tier == 'quick':
-        pairs = pairs[:400]
+        pairs = pairs[:700]
     for part in gen.split(pairs, 16 if tier == 'quick' else 48):
         U.append({'kind': 'reject', 'algs': R, 'pairs': part})
     rng.shuffle(U)
